@@ -6,6 +6,7 @@ import Gnet.Driver.Registry
 import Gnet.Driver.LB
 import Gnet.Driver.Pool
 import Gnet.Driver.Msq
+import Gnet.Driver.Wake
 
 def main (args : List String) : IO UInt32 := do
   match args with
@@ -17,4 +18,5 @@ def main (args : List String) : IO UInt32 := do
   | ["lb"] => Gnet.Driver.LBD.main; return 0
   | ["pool"] => Gnet.Driver.PoolD.main; return 0
   | ["msq"] => Gnet.Driver.MsqD.main; return 0
+  | ["wake"] => Gnet.Driver.WakeD.main; return 0
   | _ => IO.eprintln "usage: gnetmodel <component>"; return 2
